@@ -79,6 +79,13 @@ def stage(chk, quick, rng, pid, cfg, keys, build_universe):
             return None not in (n6, n8, m1, m5) and n6 < m1 and m5 < n8
         betw = [h_ for h_ in hs if between(h_)]
         pick = pick + (rng.sample(betw, 15) if len(betw) > 15 else betw)
+        # ... and, where the tree's order allows it at all, schedules in which a block found on top of the delivered one is buffered before it
+        def overtakes(h_):
+            idx = {(st["t"], st["a"]): i for i, st in enumerate(h_[0])}
+            n6, n4, m1, m7 = idx.get(("net", "N6")), idx.get(("net", "N4")), idx.get(("miner", "M1")), idx.get(("miner", "M7"))
+            return None not in (n6, n4, m1, m7) and n6 < m1 and m7 < n4
+        over = [h_ for h_ in hs if overtakes(h_)]
+        pick = pick + (rng.sample(over, 15) if len(over) > 15 else over)
         traces, info = [], {}
         for k, (h, out) in enumerate(pick):
             tid = 700000 + ntot
